@@ -11,6 +11,7 @@ from ..flatten import helper_closure
 from ..program import FuncInfo, norm, head
 from ..report import Finding, RuleResult
 from .shape import canon, count_appends, single_return, INF
+from ..anchors import filter_hook_name, filter_impl
 from .astutil import expand_aliases, facts_at, inline_helpers as inline_any, local_alias_map, stmt_of
 
 
@@ -42,7 +43,15 @@ def rule_deleg(ctx):
     rets = _returns(g)
     inst = {"Data.get returns": [norm(x.value) for x in rets if x.value is not None]}
     r.instances.append(inst)
-    ok = len(rets) == 1 and rets[0].value is not None and canon(rets[0].value) == "data_path.get_data(self, return_paths=return_paths)"
+    def delegates(v):
+        # <some path>.get_data(self, return_paths=return_paths): the receiver may be any of the forms the
+        # method builds its path with; document and flag must be handed on unchanged
+        if not (isinstance(v, ast.Call) and isinstance(v.func, ast.Attribute) and v.func.attr == "get_data"):
+            return False
+        args = [norm(a) for a in v.args]
+        kws = {k.arg: norm(k.value) for k in v.keywords}
+        return (args == ["self"] and kws == {"return_paths": "return_paths"}) or (args == ["self", "return_paths"] and not kws)
+    ok = bool(rets) and all(x.value is not None and delegates(x.value) for x in rets)
     if ok:
         r.ok()
     else:
@@ -63,6 +72,76 @@ def rule_deleg(ctx):
                        f"when nothing matches, get_data must return None for a concrete path and [] otherwise; found `{norm(nf[0].value)}`", []))
     else:
         r.undecided.append(inst)
+    # the empty path: what is returned with paths is what is returned without (same definition of the value)
+    root_if = next((n for n in ast.walk(gd.node) if isinstance(n, ast.If) and canon(n.test) == "not self.parts"), None)
+    inst = {"empty-path branch": head(root_if) if root_if is not None else None}
+    r.instances.append(inst)
+    if root_if is None:
+        r.undecided.append(inst)
+        return r
+
+    def walk(stmts, defs, out):
+        """defs: {var: defining statement | None}; out collects (return node, var, def) - straight-line + if/else."""
+        defs = dict(defs)
+        for st in stmts:
+            if isinstance(st, ast.Return):
+                v = st.value
+                with_path = isinstance(v, ast.Tuple) and len(v.elts) == 2
+                e = v.elts[0] if with_path else v
+                if e is None:
+                    out.append((st, None, None, None))
+                    return None
+
+                def marker(d, name):
+                    if isinstance(d, ast.AST):
+                        return f"def{id(d)}"
+                    return f"{d}" if d is not None else f"free:{name}"
+                import copy as _copy
+
+                class Sub(ast.NodeTransformer):
+                    def visit_Name(self, n):
+                        if isinstance(n.ctx, ast.Load) and n.id not in ("self",):
+                            return ast.Name(id="<" + marker(defs.get(n.id), n.id) + ">", ctx=ast.Load())
+                        return n
+                sig = ast.unparse(Sub().visit(_copy.deepcopy(e)))
+                out.append((st, sig, sig, with_path))
+                return None
+            if isinstance(st, ast.If):
+                a = walk(st.body, defs, out)
+                b = walk(st.orelse, defs, out)
+                if a is None and b is None:
+                    return None
+                merged = {}
+                for k in set(a or {}) | set(b or {}):
+                    x, y = (a or b).get(k), (b or a).get(k)
+                    merged[k] = x if x is y else ("join", id(st), k)
+                defs = merged
+                continue
+            if isinstance(st, ast.Assign):
+                for t in st.targets:
+                    for x in ast.walk(t):
+                        if isinstance(x, ast.Name) and isinstance(x.ctx, ast.Store):
+                            defs[x.id] = st
+            elif isinstance(st, (ast.For, ast.While, ast.Try, ast.With)):
+                for x in ast.walk(st):
+                    if isinstance(x, ast.Name) and isinstance(x.ctx, ast.Store):
+                        defs[x.id] = ("loop", id(st), x.id)
+        return defs
+    found = []
+    walk(root_if.body, {}, found)
+    inst["returns"] = [f"{norm(rt)} :: {'with path' if wp else 'alone'}" for rt, v, d, wp in found]
+    usable = [x for x in found if x[1] is not None]
+    if len(usable) < 2 or len(usable) != len(found):
+        r.undecided.append(inst)
+    else:
+        defs_ = {d for _, _, d, _ in usable}
+        if len(defs_) == 1:
+            r.ok()
+        else:
+            bad = next(rt for rt, v, d, wp in usable if wp)
+            r.fail(Finding("R-DELEG", "R-DELEG|datapath.DataPath.get_data|empty-path-returns", f"{gd.file}:{bad.lineno}",
+                           "for the empty path, the value returned together with its path and the value returned alone come from different definitions "
+                           f"({inst['returns']}): a datum modifier is applied to one and not to the other", []))
     return r
 
 
@@ -149,6 +228,10 @@ def rule_lockstep(ctx):
     for stt in part_loop.body:
         if isinstance(stt, ast.Assign) and isinstance(stt.targets[0], ast.Name) and isinstance(stt.value, ast.Name):
             copies[stt.value.id] = stt.targets[0].id
+        elif isinstance(stt, ast.Assign) and isinstance(stt.targets[0], ast.Tuple) and isinstance(stt.value, ast.Tuple) and len(stt.targets[0].elts) == len(stt.value.elts):
+            for a, b in zip(stt.targets[0].elts, stt.value.elts):
+                if isinstance(a, ast.Name) and isinstance(b, ast.Name):
+                    copies[b.id] = a.id
     D = next((copies[x] for x in ND if x in copies), None)
     P = next((copies[x] for x in NP if x in copies), None)
     roles = {"part": part_var, "filtered object": sorted(Fvars), "next value frontier": sorted(ND), "next path frontier": sorted(NP), "value frontier": D, "path frontier": P}
@@ -172,6 +255,13 @@ def rule_lockstep(ctx):
                         ok = True
                     else:
                         why = f"`{sb.slice.id}` enumerates `{it}`, not the previous value frontier `{D}`"
+                    break
+                if isinstance(p, ast.For) and isinstance(p.target, ast.Name) and p.target.id == sb.slice.id:
+                    it = ast.unparse(p.iter)
+                    if it == f"range(len({D}))":
+                        ok = True
+                    else:
+                        why = f"`{sb.slice.id}` ranges over `{it}`, not over the positions of the previous value frontier `{D}`"
                     break
         else:
             why = "index expression is not a plain loop index"
@@ -235,6 +325,34 @@ def rule_lockstep(ctx):
     else:
         r.fail(Finding("R-LOCKSTEP", "R-LOCKSTEP|datapath.DataPath.get_data|reset-copy", f"{f.file}:{part_loop.lineno}",
                        f"both next frontiers ({nd}, {np_}) must be reset to [] at the top of the per-part loop; reset: {sorted(resets)}", []))
+    # (3b) inside the part loop the frontiers are written only by the two end-of-iteration copies
+    for n in ast.walk(part_loop):
+        tg = []
+        if isinstance(n, ast.Assign):
+            tg = [x for t in n.targets for x in ast.walk(t) if isinstance(x, ast.Name) and isinstance(x.ctx, ast.Store)]
+        elif isinstance(n, ast.AugAssign) and isinstance(n.target, ast.Name):
+            tg = [n.target]
+        hit = [x.id for x in tg if x.id in (D, P)]
+        mut = (isinstance(n, ast.Call) and isinstance(n.func, ast.Attribute) and isinstance(n.func.value, ast.Name) and n.func.value.id in (D, P)
+               and n.func.attr in ("pop", "remove", "insert", "append", "extend", "clear", "sort", "reverse"))
+        if not hit and not mut:
+            continue
+        pairs = None
+        if isinstance(n, ast.Assign) and n in part_loop.body and len(n.targets) == 1:
+            t0, v0 = n.targets[0], n.value
+            if isinstance(t0, ast.Name) and isinstance(v0, ast.Name):
+                pairs = [(t0.id, v0.id)]
+            elif isinstance(t0, ast.Tuple) and isinstance(v0, ast.Tuple) and len(t0.elts) == len(v0.elts) and all(isinstance(x, ast.Name) for x in t0.elts + v0.elts):
+                pairs = [(a.id, b.id) for a, b in zip(t0.elts, v0.elts)]
+        is_copy = pairs is not None and all((a, b) in ((D, nd), (P, np_)) for a, b in pairs if a in (D, P))
+        inst = {"frontier write in the part loop": norm(n)}
+        r.instances.append(inst)
+        if is_copy:
+            r.ok()
+        else:
+            r.fail(Finding("R-LOCKSTEP", f"R-LOCKSTEP|datapath.DataPath.get_data|in-loop-write|{norm(n)[:50]}", f"{f.file}:{n.lineno}",
+                           f"`{norm(n)}` changes a frontier ({D} / {P}) inside the per-part loop other than by the end-of-iteration copies `{D} = {nd}` / `{P} = {np_}`: "
+                           f"values and paths of the next level are then paired with the wrong parents", []))
     # (4) between the part loop and zip(D, P) only length-preserving rebindings may touch a frontier
     following = []
     cur = part_loop
@@ -593,7 +711,13 @@ def rule_collect(ctx):
     bad forms (violations) and is otherwise undecided."""
     prog = ctx.prog
     r = RuleResult("R-COLLECT", floor=6)
-    f = prog.flat("rules.RuleTest._test")
+    f = prog.flat("rules.RuleTest.__init__")
+    if not any(isinstance(n, ast.Call) and isinstance(n.func, ast.Attribute) and n.func.attr == "get_data" for n in ast.walk(f.node)):
+        # the collecting method could not be inlined into the constructor: analyse it where it is
+        for m in prog.cls("rules.RuleTest").methods.values():
+            if any(isinstance(n, ast.Call) and isinstance(n.func, ast.Attribute) and n.func.attr == "get_data" for n in ast.walk(m.node)):
+                f = prog.flat(m.qualname)
+                break
     where = f"{f.file}:{f.node.lineno}"
     canon_l = lambda e: canon(inline_any(prog, f, e))
 
@@ -661,8 +785,43 @@ def rule_collect(ctx):
             FD = stf.targets[0].id
     else:
         r.undecided.append(inst)
+    # live assignments: the last assignment to a field on some path through the (flattened) constructor
+    def paths(stmts):
+        if not stmts:
+            yield [], False
+            return
+        first, rest = stmts[0], stmts[1:]
+        if isinstance(first, ast.If):
+            for br in (first.body, first.orelse):
+                for p, ended in paths(br):
+                    if ended:
+                        yield p, True
+                    else:
+                        for q, e2 in paths(rest):
+                            yield p + q, e2
+        elif isinstance(first, (ast.Return, ast.Raise)):
+            yield [first], True
+        elif isinstance(first, (ast.For, ast.While, ast.Try, ast.With)):
+            inner = [x for x in ast.walk(first) if isinstance(x, ast.Assign)]
+            for q, e2 in paths(rest):
+                yield inner + q, e2
+        else:
+            for q, e2 in paths(rest):
+                yield [first] + q, e2
+
+    def live_assignments(target):
+        out = []
+        for p, ended in paths(f.node.body):
+            if p and isinstance(p[-1], ast.Raise):
+                continue
+            asg = [x for x in p if isinstance(x, ast.Assign) and norm(x.targets[0]) == target]
+            if asg and not any(asg[-1] is y for y in out):
+                out.append(asg[-1])
+            elif not asg and None not in out:
+                out.append(None)
+        return out
     # (d) verdict
-    valid_as = [n for n in ast.walk(f.node) if isinstance(n, ast.Assign) and norm(n.targets[0]) == "self._is_valid"]
+    valid_as = [n for n in live_assignments("self._is_valid") if n is not None]
     inst = {"verdict assignments": [f"{norm(a)} under {sorted(facts_at(prog, f, a, canon))}" for a in valid_as]}
     r.instances.append(inst)
     if FD and valid_as:
@@ -734,9 +893,12 @@ def rule_collect(ctx):
     pub = [n for n in ast.walk(f.node) if isinstance(n, ast.Assign) and norm(n.targets[0]) == "self._failures"]
     inst = {"failures published": [norm(x) for x in pub]}
     r.instances.append(inst)
-    if pub and all(isinstance(x.value, ast.Call) and norm(x.value.func) == "tuple" for x in pub) and pub[-1] in f.node.body:
+    live = live_assignments("self._failures")
+    is_tuple = lambda v: (isinstance(v, ast.Call) and norm(v.func) == "tuple") or (isinstance(v, ast.Tuple) and not v.elts)
+    inst["live"] = [norm(x) if x is not None else "<no assignment on some path>" for x in live]
+    if live and all(x is not None and is_tuple(x.value) for x in live):
         r.ok()
-    elif pub and any(isinstance(x.value, ast.Constant) for x in pub):
+    elif live and any(x is not None and isinstance(x.value, ast.Constant) for x in live):
         r.fail(Finding("R-COLLECT", "R-COLLECT|rules.RuleTest._test|publish", where, "the collected failures must be published as `self._failures = tuple(<failures>)` on every path", []))
     else:
         r.undecided.append(inst)
@@ -751,10 +913,15 @@ def rule_collect(ctx):
         r.fail(Finding("R-COLLECT", "R-COLLECT|rules.RuleTest.num_failures", where, f"the failure count must be the length of the failure list (found `{norm(rv)}`)", []))
     else:
         r.undecided.append(inst)
-    callers = [g.qualname for g in prog.all_functions() for n in ast.walk(g.node) if isinstance(n, ast.Call) and isinstance(n.func, ast.Attribute) and n.func.attr == "_test"]
-    inst = {"_test callers": callers}
+    # the collecting code runs exactly once per rule test, from the constructor: whichever private
+    # method holds the selection (`get_data(.., return_paths=True)`) is called from __init__ only
+    holder = next((m for m in prog.cls("rules.RuleTest").methods.values()
+                   if any(isinstance(n, ast.Call) and isinstance(n.func, ast.Attribute) and n.func.attr == "get_data" for n in ast.walk(m.node))), None)
+    hname = holder.name if holder is not None else "__init__"
+    callers = [g.qualname for g in prog.all_functions() for n in ast.walk(g.node) if isinstance(n, ast.Call) and isinstance(n.func, ast.Attribute) and n.func.attr == hname and hname != "__init__"]
+    inst = {"collector": hname, "callers": callers}
     r.instances.append(inst)
-    if callers == ["rules.RuleTest.__init__"]:
+    if callers == ["rules.RuleTest.__init__"] or hname == "__init__":
         r.ok()
     else:
         r.fail(Finding("R-DEFATTR", "R-DEFATTR|rules.RuleTest._test|callers", where, f"_test must run exactly once per rule test, from RuleTest.__init__ (callers: {callers})", []))
@@ -862,7 +1029,7 @@ def child_flags(prog, b):
     """Flags handed to the two children of a combination for data_has_paths True / False, by
     finite evaluation of the statements that compute them."""
     from ..finite import run_block
-    calls = [n for n in ast.walk(b.node) if isinstance(n, ast.Call) and isinstance(n.func, ast.Attribute) and n.func.attr == "_filter" and len(n.args) >= 2]
+    calls = [n for n in ast.walk(b.node) if isinstance(n, ast.Call) and isinstance(n.func, ast.Attribute) and n.func.attr == filter_hook_name(prog) and len(n.args) >= 2]
     if not calls:
         return {"undecided": True}
     a1 = calls[0].args[1]
@@ -892,7 +1059,7 @@ def child_flags(prog, b):
 def rule_flag(ctx):
     prog = ctx.prog
     r = RuleResult("R-FLAG", floor=3)
-    f = prog.flat("conditions.Condition._filter")
+    f = filter_impl(prog, "conditions.Condition")
     ok = False
     for n in ast.walk(f.node):
         if isinstance(n, ast.If) and norm(n.test) == "data_has_paths" and [norm(s) for s in n.body] in (["(datum, _) = datum"], ["datum, _ = datum"]):
@@ -909,7 +1076,7 @@ def rule_flag(ctx):
         r.ok()
     else:
         r.fail(Finding("R-FLAG", "R-FLAG|data.FilteredData.__init__", f"{g.file}:{g.node.lineno}", "paths must be split off (`self.source.extract_paths()`) exactly under `data_has_paths`", []))
-    b = prog.flat("conditions.ConditionBinaryOp._filter")
+    b = filter_impl(prog, "conditions.ConditionBinaryOp")
     flags = child_flags(prog, b)
     r.instances.append({"site": "ConditionBinaryOp._filter flags", "data_has_paths=True": flags.get(True), "data_has_paths=False": flags.get(False)})
     if flags.get("undecided"):
@@ -1247,11 +1414,11 @@ def rule_looptry(ctx):
         else:
             r.ok()
     # dominated by the isinstance test on the cast's source type; write-back uses the cast result and the node's own path
-    guard = _enclosing(call, ast.If)
-    inst = {"guard": norm(guard.test) if guard else None}
-    r.instances.append(inst)
     nodevar = _target_names(node_loop.target)[0]
-    if guard is not None and norm(guard.test).startswith(f"isinstance({nodevar}, ") and any(p is cast_loop for p in _parents(guard)):
+    gfacts = facts_at(prog, f, call, canon) - facts_at(prog, f, cast_loop, canon)
+    inst = {"guard": sorted(gfacts)}
+    r.instances.append(inst)
+    if any(g.startswith(f"isinstance({nodevar}, ") and any(g == f"isinstance({nodevar}, {nm})" for nm in names) for g in gfacts):
         r.ok()
     else:
         r.fail(Finding("R-LOOPTRY", "R-LOOPTRY|rules.Rule.test|guard", f"{f.file}:{call.lineno}", f"a cast applies only to a node whose type is the cast's source type (`isinstance({nodevar}, <key>)`)", []))
@@ -1281,12 +1448,38 @@ def rule_fields(ctx):
     r = RuleResult("R-FIELDS", floor=5)
     w = prog.flat("rules.Rule.to_json_like")
     rd = prog.flat("rules.Rule.from_spec")
-    out = None
+    out, out_st = None, None
     for st in w.node.body:
         if isinstance(st, ast.Assign) and isinstance(st.value, ast.Dict):
-            out = st.value
+            out, out_st = st.value, st
     if out is None:
         raise AnalysisError("Rule.to_json_like: returned mapping not found")
+    # nothing may drop entries from the mapping after it was built
+    if isinstance(out_st.targets[0], ast.Name):
+        ov = out_st.targets[0].id
+        after = False
+        for n in ast.walk(w.node):
+            if n is out_st:
+                after = True
+                continue
+            if not after:
+                continue
+            drops = None
+            if isinstance(n, ast.Assign) and any(isinstance(t, ast.Name) and t.id == ov for t in n.targets):
+                v = n.value
+                if isinstance(v, ast.DictComp) and any(g.ifs for g in v.generators) and any(isinstance(x, ast.Name) and x.id == ov for x in ast.walk(v)):
+                    drops = f"`{norm(n)[:100]}` filters the entries of the mapping"
+                else:
+                    r.undecided.append({"what": f"the mapping is rebound after construction: {norm(n)[:80]}"})
+            elif isinstance(n, ast.Call) and isinstance(n.func, ast.Attribute) and isinstance(n.func.value, ast.Name) and n.func.value.id == ov and n.func.attr in ("pop", "popitem", "clear"):
+                drops = f"`{norm(n)[:80]}` removes entries from the mapping"
+            elif isinstance(n, ast.Delete) and any(isinstance(t, ast.Subscript) and isinstance(t.value, ast.Name) and t.value.id == ov for t in n.targets):
+                drops = f"`{norm(n)[:80]}` removes an entry from the mapping"
+            if drops:
+                r.instances.append({"entries dropped": drops})
+                r.fail(Finding("R-FIELDS", "R-FIELDS|rules.Rule.to_json_like|dropped", f"{w.file}:{n.lineno}",
+                               f"{drops}: from_spec reads `condition` and `path` unconditionally (and equality depends on `cast`), so a rule whose entry is dropped "
+                               f"(null condition -> {{}}, root path -> [], empty cast) cannot be rebuilt / comes back different", []))
     written = {k.value: norm(v) for k, v in zip(out.keys, out.values) if isinstance(k, ast.Constant)}
     read_sub = {n.slice.value for n in ast.walk(rd.node) if isinstance(n, ast.Subscript) and norm(n.value) == "spec" and isinstance(n.slice, ast.Constant)}
     read_get = {n.args[0].value for n in ast.walk(rd.node) if isinstance(n, ast.Call) and isinstance(n.func, ast.Attribute) and n.func.attr == "get" and norm(n.func.value) == "spec" and n.args and isinstance(n.args[0], ast.Constant)}
@@ -1473,8 +1666,8 @@ def rule_thread(ctx):
             n_sites += 1
             inst = {"site": f"{f.qualname}: {norm(n)[:90]}", "passes": norm(kw.value)}
             r.instances.append(inst)
-            if f.qualname == "rules.RuleTest._test":
-                ok = norm(kw.value) == "self.data"
+            if f.cls is not None and f.cls.qualname == "rules.RuleTest":
+                ok = norm(expand_aliases(f, kw.value)) == "self.data"
             elif f.qualname == "datapath.DataPath.__init__" or not has_param:
                 ok = True
                 inst["note"] = "not on the evaluation path"
@@ -1519,12 +1712,42 @@ def rule_thread(ctx):
                                f"`{norm(n)[:100]}` does not pass `source_data` on although {cands[0].qualname} takes it: path-valued arguments below this call are no longer resolved against the validated document", []))
     # positional forwarding in the resolver
     pc = prog.cls("conditions.PreparedConditionCallable")
-    call = pc.lookup_method("__call__")
-    body = " ; ".join(norm(s) for s in call.node.body)
-    inst = {"__call__": body}
+    call = prog.flat("conditions.PreparedConditionCallable.__call__")
+    pnames = [p.name for p in call.params]
+    inst = {"__call__": " ; ".join(norm(s) for s in call.node.body)[:300]}
     r.instances.append(inst)
-    if "self._get_resolved_data_path_args(source_data)" in body and "self.func(trial_datum, *res_args, **res_kwargs)" in body:
+    ok = None
+    if len(pnames) >= 3:
+        item, src = pnames[1], pnames[2]
+        finals = [n for n in ast.walk(call.node) if isinstance(n, ast.Call) and norm(n.func) in ("self.func", "self._func")]
+        resolves = [n for n in ast.walk(call.node) if isinstance(n, ast.Call) and norm(n.func) not in ("self.func", "self._func")
+                    and any(isinstance(a, ast.Name) and a.id == src for a in list(n.args) + [k.value for k in n.keywords])]
+        good_final = bool(finals) and all(n.args and isinstance(n.args[0], ast.Name) and n.args[0].id == item
+                                          and any(isinstance(a, ast.Starred) for a in n.args[1:]) and any(k.arg is None for k in n.keywords) for n in finals)
+        inst["final calls"] = [norm(n) for n in finals]
+        inst["resolution calls"] = [norm(n)[:80] for n in resolves]
+        if finals and not good_final:
+            ok = False
+        elif finals and resolves:
+            # the starred arguments must not be the stored ones on the resolving path
+            raw = [n for n in finals if any(isinstance(a, ast.Starred) and norm(a.value) in ("self.args", "self._args") for a in n.args)
+                   and f"not {src}" not in facts_at(prog, call, n, canon)]
+            # ... also when the stored arguments reach the call through a local
+            starred = {norm(a.value) for n in finals for a in n.args if isinstance(a, ast.Starred) and isinstance(a.value, ast.Name)}
+            for n in ast.walk(call.node):
+                if not (isinstance(n, ast.Assign) and len(n.targets) == 1):
+                    continue
+                t, v = n.targets[0], n.value
+                pairs = [(t, v)] if isinstance(t, ast.Name) else (list(zip(t.elts, v.elts)) if isinstance(t, ast.Tuple) and isinstance(v, ast.Tuple) and len(t.elts) == len(v.elts) else [])
+                for tt, vv in pairs:
+                    if isinstance(tt, ast.Name) and tt.id in starred and norm(vv) in ("self.args", "self._args") and f"not {src}" not in facts_at(prog, call, n, canon):
+                        raw.append(n)
+            inst["unresolved arguments used outside `not source_data`"] = [norm(x)[:80] for x in raw]
+            ok = not raw
+    if ok is True:
         r.ok()
+    elif ok is None:
+        r.undecided.append(inst)
     else:
         r.fail(Finding("R-THREAD", "R-THREAD|conditions.PreparedConditionCallable.__call__", f"{call.file}:{call.node.lineno}",
                        "the prepared callable must resolve its arguments against `source_data` and call the function with the item first and the resolved arguments", []))
@@ -1536,7 +1759,7 @@ def rule_thread(ctx):
 def rule_depth(ctx):
     prog = ctx.prog
     r = RuleResult("R-DEPTH", floor=3)
-    res = prog.flat("conditions.PreparedConditionCallable._get_resolved_data_path_args")
+    res = prog.flat("conditions.PreparedConditionCallable.__call__")
     src = ast.unparse(res.node)
     helper = None
     for n in ast.walk(res.node):
@@ -1644,6 +1867,25 @@ def rule_reasons(ctx):
     if not skips:
         r.instances.append({"skipped truth-table rows": "none recognised"})
         r.undecided.append({"what": "row-skipping test not in the recognised form"})
+    # the operator row of a combination reports "false" exactly where the combination's own result is
+    # False: it is the reason row of an item that fails an xor with both operands true
+    init = prog.flat("data.FilteredDataBinaryOp.__init__")
+    asg = [n for n in ast.walk(init.node) if isinstance(n, ast.Assign) and norm(n.targets[0]) == "self.callable_false"]
+    for a in asg:
+        inst = {"combination callable_false": norm(a.value)}
+        r.instances.append(inst)
+        v = a.value
+        good = (isinstance(v, ast.ListComp) and len(v.generators) == 1 and not v.generators[0].ifs and norm(v.generators[0].iter) in ("self.result", "self._result")
+                and isinstance(v.elt, ast.UnaryOp) and isinstance(v.elt.op, ast.Not) and norm(v.elt.operand) == norm(v.generators[0].target))
+        from_children = any(isinstance(x, ast.Attribute) and x.attr == "callable_false" for x in ast.walk(v))
+        if good:
+            r.ok()
+        elif from_children:
+            r.fail(Finding("R-REASONS", "R-REASONS|data.FilteredDataBinaryOp.__init__|callable_false", f"{init.file}:{a.lineno}",
+                           f"`{norm(a)[:120]}`: the combination's `callable_false` row is derived from the operands' rows instead of the combination's own result; "
+                           f"an item failing an xor because both operands hold (no operand row is false) then carries no reason", []))
+        else:
+            r.undecided.append(inst)
     return r
 
 
@@ -1777,4 +2019,93 @@ def rule_noclosure(ctx):
                            f"{f.qualname} creates a function object per call ({what}) and stores / passes it on: functions compare by identity, so parsing the same spec twice gives unequal objects", []))
         else:
             r.ok()
+    return r
+
+
+def rule_swallow(ctx):
+    """The condition parser probes argument values with the data-path parser and keeps the value as
+    a literal when the probe says "this is not a path spec".  Once the path parser has recognised
+    the spec and started building parts, every error means a *malformed path*: it must not belong
+    to an exception class the probe swallows (or a malformed path argument is accepted as a literal)."""
+    from ..anchors import condition_parser, path_parser
+    from ..program import ClassInfo
+    prog = ctx.prog
+    r = RuleResult("R-SWALLOW", floor=2)
+    cp, pp = condition_parser(prog), path_parser(prog)
+    swallowed = {}
+    probe_fns = [cp] + [g for g in helper_closure(prog, prog.functions.get(cp.qualname, cp))[1:]]
+    for n in [x for g in probe_fns for x in ast.walk(g.node)]:
+        if not isinstance(n, ast.Try):
+            continue
+        probes = [c for b in n.body for c in ast.walk(b) if isinstance(c, ast.Call) and isinstance(c.func, ast.Attribute) and c.func.attr == pp.name and "DataPath" in norm(c.func.value)]
+        if not probes:
+            continue
+        for h in n.handlers:
+            if any(isinstance(x, ast.Raise) for x in ast.walk(h)):
+                continue
+            types = h.type.elts if isinstance(h.type, ast.Tuple) else ([h.type] if h.type is not None else [])
+            for t in types:
+                ent = prog.resolve_expr(cp.module, t)
+                if isinstance(ent, ClassInfo):
+                    swallowed.setdefault(ent.qualname, []).append(h)
+    inst = {"probe handlers in the condition parser swallow": sorted(swallowed)}
+    r.instances.append(inst)
+    if not swallowed:
+        r.undecided.append(inst)
+        return r
+
+    def caught(mod, exc_expr):
+        e = exc_expr.func if isinstance(exc_expr, ast.Call) else exc_expr
+        ent = prog.resolve_expr(mod, e) if e is not None else None
+        if isinstance(ent, ClassInfo):
+            return next((q for q in swallowed if prog.classes[q] in ent.mro), None), ent.qualname
+        return None, None
+    # (1) raises of the path parser after part building started
+    clsname = pp.params[0].name if pp.params else "cls"
+    build_idx = None
+    for i, st in enumerate(pp.node.body):
+        if any(isinstance(c, ast.Call) and isinstance(c.func, ast.Attribute) and isinstance(c.func.value, ast.Name) and c.func.value.id in (clsname, "DataPath") and c.func.attr != pp.name
+               for c in ast.walk(st)):
+            build_idx = i
+            break
+    inst = {"part building starts at": head(pp.node.body[build_idx]) if build_idx is not None else None}
+    r.instances.append(inst)
+    if build_idx is None:
+        r.undecided.append(inst)
+    else:
+        for st in pp.node.body[build_idx:]:
+            for x in ast.walk(st):
+                if isinstance(x, ast.Raise) and x.exc is not None:
+                    q, name = caught(pp.module, x.exc)
+                    inst = {"raise after part building": norm(x)[:90], "class": name, "swallowed as": q}
+                    r.instances.append(inst)
+                    if q:
+                        r.fail(Finding("R-SWALLOW", f"R-SWALLOW|{pp.qualname}|{name}", f"{pp.file}:{x.lineno}",
+                                       f"`{norm(x)[:80]}` reports a malformed data path (the spec was already recognised as a path and its parts built) with {name}, "
+                                       f"which the condition parser's probe swallows (`except {q.split('.')[-1]}`): a malformed path argument - e.g. an unknown path suffix - "
+                                       f"is accepted as a literal mapping", []))
+                    else:
+                        r.ok()
+    # (2) raises of the part parsers
+    dp = prog.module("datapath")
+    n_part = 0
+    for f in prog.all_functions():
+        if f.module is not dp or f.qualname == pp.qualname:
+            continue
+        if not (f.cls is None or f.cls.name != "DataPath" or f.name in ("__init__", "from_part_specs")):
+            continue
+        for x in ast.walk(f.node):
+            if isinstance(x, ast.Raise) and x.exc is not None:
+                q, name = caught(f.module, x.exc)
+                if name is None:
+                    continue
+                n_part += 1
+                if q:
+                    r.instances.append({"part parser raise": f"{f.qualname}: {norm(x)[:80]}", "swallowed as": q})
+                    r.fail(Finding("R-SWALLOW", f"R-SWALLOW|{f.qualname}|{name}", f"{f.file}:{x.lineno}",
+                                   f"`{norm(x)[:80]}` in {f.qualname} rejects a malformed path part with {name}, which the condition parser's probe swallows "
+                                   f"(`except {q.split('.')[-1]}`): a malformed path given as a condition argument is accepted as a literal", []))
+    r.instances.append({"part parser raises examined": n_part})
+    if n_part:
+        r.ok()
     return r
